@@ -59,3 +59,11 @@ package caching
 //@ pure func strHash(s text) uint64
 //@ func StrHash assumed "runtime.strhash through linkname: a deterministic function of the bytes"
 //@   ensures result == strHash(txt(s)) && result != 0
+
+// FieldMap.GetCaseInsensitive (C01: field names match case-insensitively the way
+// encoding/json folds them - here: equal after strings.ToLower, the key under which Set
+// files every name): the id stored under the lower-cased name, or -1.
+//@ func (*FieldMap).GetCaseInsensitive props C01
+//@   requires self != nil
+//@   ensures has(self.m, strings.lowerSpec(txt(name))) ==> result == self.m[strings.lowerSpec(txt(name))]
+//@   ensures !has(self.m, strings.lowerSpec(txt(name))) ==> result == -1
